@@ -47,6 +47,9 @@ def run(prog, tier):
     check_interface(R, prog)
     check_add_clause(R, prog)
     check_builders(R, prog)
+    from . import c04
+    from ._families import borrow
+    borrow(R, P, "BUILDER", prog, c04.check_builder_paths, builder_table(prog), floor=14)
     return R
 
 
@@ -162,18 +165,20 @@ def check_interface(R, prog):
 
 
 def check_add_clause(R, prog):
-    for mod, cls, fld in (("cnfgen.formula.basecnf", "BaseCNF", "_clauses"), ("cnfgen.formula.baseopb", "BaseOPB", "_constraints")):
-        fi = prog.func(mod, cls + ".add_clause")
+    for mod, cls, fld, meth in (("cnfgen.formula.basecnf", "BaseCNF", "_clauses", "add_clause"),
+                                ("cnfgen.formula.baseopb", "BaseOPB", "_constraints", "add_clause"),
+                                ("cnfgen.formula.baseopb", "BaseOPB", "_constraints", "add_constraint")):
+        fi = prog.func(mod, cls + "." + meth)
         cfg = CFG(fi.node)
         apps = [s for s in stmts_in(fi.node) if isinstance(s, ast.Expr) and isinstance(s.value, ast.Call) and call_name(s.value) == "self.%s.append" % fld]
         nodes = [cfg.node_of(a) for a in apps]
         skip = cfg.reaches(cfg.entry, cfg.exit, avoid=nodes)
         if apps and not skip:
-            R.ok("ADD-CLAUSE-SIBLING", "%s.add_clause stores the clause on every path (the empty clause included)" % cls, fi.key)
+            R.ok("ADD-CLAUSE-SIBLING", "%s.%s stores the constraint on every path (the empty / trivial one included)" % (cls, meth), fi.key)
         else:
-            R.bad(F("ADD-CLAUSE-SIBLING", fi, "%s.add_clause can drop a clause" % cls,
-                    "some path through add_clause returns without storing anything: for the empty clause one class records a contradiction "
-                    "and the other records nothing, so the two renderings of an unsatisfiable family differ"))
+            R.bad(F("ADD-CLAUSE-SIBLING", fi, "%s.%s can drop a constraint" % (cls, meth),
+                    "some path through %s returns without storing anything: a constraint one class records (an empty clause, `== 0`, ..) "
+                    "the other drops, so the two renderings of a family differ" % meth))
 
 
 def check_builders(R, prog):
